@@ -109,6 +109,10 @@ EDITS = {
         ("st03", ST + "tree.rs", "DELAY_ADDITIONAL_OFFSET as u64 + *len", "*len", "verus", "state_tree"),
     ],
     "C12": [
+        ("lr01", "crates/lib/mimium-lang/src/compiler/mirgen.rs", "                                    ctx.insert_clone_recursively(res.clone(), effective_rt);\n                                    let _ = ctx", "                                    let _ = ctx", "verus", "mirgen_rc"),
+        ("lr02", "crates/lib/mimium-lang/src/compiler/mirgen.rs", "                                ctx.insert_close_closures_recursively(cls.clone(), effective_rt);\n                                ctx.insert_clone_recursively(cls.clone(), effective_rt);", "                                ctx.insert_clone_recursively(cls.clone(), effective_rt);", "verus", "mirgen_rc"),
+        ("ea10", "crates/lib/mimium-lang/src/compiler/mirgen.rs", "                    self.insert_close_closures_recursively(res.clone(), t);", "                    self.insert_clone_recursively(res.clone(), t);", "verus", "mirgen_rc"),
+        ("ea11", "crates/lib/mimium-lang/src/compiler/mirgen.rs", "                if t.to_type().contains_function() || t.to_type().contains_boxed() {\n                    self.insert_clone_recursively(res.clone(), t);", "                if t.to_type().contains_function() || t.to_type().contains_boxed() {\n                    self.insert_clone_recursively(v.clone(), t);", "verus", "mirgen_rc"),
         ("lx01", "crates/lib/mimium-lang/src/compiler/mirgen.rs", "                        let value = self.push_inst(Instruction::Load(ptr, ty));\n                        self.insert_release_recursively(value, ty);", "                        let value = self.push_inst(Instruction::Load(ptr, ty));\n                        self.insert_release_recursively(value.clone(), ty);\n                        self.insert_release_recursively(value, ty);", "verus", "mirgen_rc"),
         ("lx02", "crates/lib/mimium-lang/src/compiler/mirgen.rs", "                        let value = self.push_inst(Instruction::Load(ptr, ty));\n                        self.insert_release_recursively(value, ty);", "                        let value = self.push_inst(Instruction::Load(ptr, ty));\n                        self.insert_close_closures_recursively(value.clone(), ty);\n                        self.insert_release_recursively(value, ty);", "verus", "mirgen_rc"),
         ("px01", "crates/lib/mimium-lang/src/compiler/mirgen.rs", "                self.insert_clone_recursively(res.clone(), elem_ty);\n                (res, elem_ty, states)", "                (res, elem_ty, states)", "verus", "mirgen_rc"),
